@@ -91,6 +91,8 @@ def run(ck):
     nfits = ck.n(14, 90)
     for i in range(nfits):
         kern, extra = kernels[i % 5]
+        if kern == 'l2_high_dim' and (i // 5) % 2 == 0:
+            kern = 'l2_light'          # the other spelling of the same kernel: the name is part of the exported hyper-parameters
         task = ['reg', 'class', 'reg2', 'class'][i % 4]
         cmode = ['zero_one', 'prevalence'][(i // 4) % 2]
         n_trees = [1, 2, 3][i % 3]
